@@ -147,13 +147,19 @@ def load_known_findings():
         return json.load(f).get("findings", [])
 
 
+def _glob(pattern, text):
+    """'*' is the only wildcard (names contain brackets, which fnmatch would treat as character classes)"""
+    import re
+    return re.fullmatch(re.escape(pattern).replace(r"\*", ".*"), text) is not None
+
+
 def finding_for(kf, pid, contract, obligation):
     for e in kf:
         if e.get("status") != "finding":
             continue
         if pid not in e.get("properties", [e.get("property")]):
             continue
-        if e.get("contract") == contract and fnmatch.fnmatch(obligation, e.get("obligation", "*")):
+        if _glob(e.get("contract", "*"), contract) and _glob(e.get("obligation", "*"), obligation):
             return e
     return None
 
